@@ -51,6 +51,8 @@ def cases(tier, seed):
                'gumbel': False, 'hard': (i // 7) % 3 == 0}
         cs.append({'cfg': cfg, 'k': i % 6, 'n_opts': (i // 6) % 4, 'move_nas': i % 3 != 0,
                    'temp_from_ckpt': (i // 4) % 2 == 0,
+                   # the architecture is logged (summary / str / export) before the checkpoint
+                   'log_before_ckpt': (i // 12) % 2 == 1,
                    'crash': (tier == 'thorough' and i % 2 == 0) or (tier == 'quick' and i % 8 == 7),
                    'seed': seed * 104729 + i})
     return cs
@@ -83,6 +85,15 @@ def build_and_train(case):
     with torch.no_grad():
         torch.manual_seed(5)
         nas(*m['xs'])
+    if case.get('log_before_ckpt'):
+        # "at any point of a search": a training loop that prints / exports the current
+        # architecture and then checkpoints
+        nas.summary()
+        str(nas)
+        for n in m['cost_names']:
+            nas.get_cost(n)
+        if kind != 'mps-channel':       # README: export crashes for the per-channel scheme
+            nas.export()
     return m, applied
 
 
@@ -149,6 +160,8 @@ def compare(ctx, case, snap_a, snap_b, load, how, applied):
 def run_case(case, ctx):
     kind = case['cfg']['kind']
     ctx.cls(f"{kind}-k{case['k']}-opts{case['n_opts']}" + ('-crash' if case['crash'] else ''))
+    if case.get('log_before_ckpt'):
+        ctx.cls(kind + '-logged-before-checkpoint')
     if case['crash']:
         wd = tempfile.mkdtemp(prefix='c17_', dir=os.environ.get('VF_TMP', None))
         try:
